@@ -19,6 +19,7 @@ Fixpoint find_close (s : str) : option nat :=
   end.
 
 Definition is_blank (c : N) : bool := is_sptab c || is_nl c.
+Definition count_nl (s : str) : nat := List.length (filter is_nl s).
 
 Inductive layout_item : str -> Prop :=
 | LI_blank : forall c, is_blank c = true -> layout_item [c]
@@ -33,6 +34,15 @@ Inductive layout_text : str -> Prop :=
 | LT_nil : layout_text []
 | LT_cons : forall it rest, layout_item it -> layout_text rest -> layout_text (it ++ rest).
 
+(* the layout parse_ws accepts when newlines are not allowed ([inc_newlines = false], the
+   gap after a directive keyword): blanks and /* */ comments without newline character —
+   and // comments, whose terminating newline the code consumes without looking at the flag *)
+Inductive line_layout : str -> Prop :=
+| LL_nil : line_layout []
+| LL_cons : forall it rest, layout_item it ->
+    (count_nl it = 0 \/ exists r, it = c_slash :: c_slash :: r) ->
+    line_layout rest -> line_layout (it ++ rest).
+
 (* what parse_ws stops at: end of text, a lone '/' at the end, '/' followed by
    something that opens no comment, or any non-blank character *)
 Definition starts_solid (rest : str) : Prop :=
@@ -42,8 +52,6 @@ Definition starts_solid (rest : str) : Prop :=
       is_blank c = false /\
       (c = c_slash -> match r with [] => True | d :: _ => d <> c_slash /\ d <> c_star end)
   end.
-
-Definition count_nl (s : str) : nat := List.length (filter is_nl s).
 
 (* parse_ws skips exactly the layout: for every text pre ++ l ++ rest with l a
    layout text and rest starting solid, parse_ws at |pre| returns |pre| + |l|
@@ -58,6 +66,14 @@ Definition ws_skips_layout_for (fixed : bool) : Prop :=
     = Done (Ok (byte_len pre + byte_len l, nn + count_nl l)).
 
 Definition ws_skips_layout_fixed_stmt : Prop := ws_skips_layout_for true.
+
+(* ... and [inc = false] in full: every line layout is skipped (newlines of // comments counted) *)
+Definition ws_skips_line_layout_stmt : Prop :=
+  forall (pre l rest : str) (nn : nat),
+    line_layout l -> starts_solid rest ->
+    let src := pre ++ l ++ rest in
+    parse_ws true src (byte_len src) (fuel_for src) nn (byte_len pre) false
+    = Done (Ok (byte_len pre + byte_len l, nn + count_nl l)).
 
 (* the code as it is: refuted (DESIGN §9, parser.rs:1006-1026) *)
 Definition ws_skips_layout_refuted_stmt : Prop :=
